@@ -22,6 +22,7 @@ impl SchemaMut {
 		let mut state = WriteCanonicalFormState {
 			w: ErrorConversionWriter(Rabin::default()),
 			named_type_written: vec![false; self.nodes.len()],
+			unnamed_type_being_written: vec![false; self.nodes.len()],
 		};
 		state.write_canonical_form(self, SchemaKey::from_idx(0))?;
 		Ok(state.w.0.finish())
@@ -31,6 +32,10 @@ impl SchemaMut {
 struct WriteCanonicalFormState<W> {
 	w: ErrorConversionWriter<W>,
 	named_type_written: Vec<bool>,
+	/// Arrays, maps and unions that we are currently inside of: meeting one of them again
+	/// means that the schema has a cycle that goes through unnamed types only, which can't
+	/// be written (and would otherwise recurse forever)
+	unnamed_type_being_written: Vec<bool>,
 }
 
 impl<W: Write> WriteCanonicalFormState<W> {
@@ -92,6 +97,7 @@ impl<W: Write> WriteCanonicalFormState<W> {
 				self.w.write_str("\"string\"")?;
 			}
 			RegularType::Union(ref union) => {
+				self.enter_unnamed(key)?;
 				self.w.write_char('[')?;
 				for &variant in &union.variants {
 					if !first_time {
@@ -102,16 +108,21 @@ impl<W: Write> WriteCanonicalFormState<W> {
 					self.write_canonical_form(schema, variant)?;
 				}
 				self.w.write_char(']')?;
+				self.unnamed_type_being_written[key.idx] = false;
 			}
 			RegularType::Array(ref array) => {
+				self.enter_unnamed(key)?;
 				self.w.write_str("{\"type\":\"array\",\"items\":")?;
 				self.write_canonical_form(schema, array.items)?;
 				self.w.write_char('}')?;
+				self.unnamed_type_being_written[key.idx] = false;
 			}
 			RegularType::Map(ref map) => {
+				self.enter_unnamed(key)?;
 				self.w.write_str("{\"type\":\"map\",\"values\":")?;
 				self.write_canonical_form(schema, map.values)?;
 				self.w.write_char('}')?;
+				self.unnamed_type_being_written[key.idx] = false;
 			}
 			RegularType::Enum(ref enum_) => {
 				if should_not_write_only_name(&enum_.name, self)? {
@@ -166,6 +177,21 @@ impl<W: Write> WriteCanonicalFormState<W> {
 	}
 }
 
+impl<W> WriteCanonicalFormState<W> {
+	fn enter_unnamed(&mut self, key: SchemaKey) -> Result<(), SchemaError> {
+		match &mut self.unnamed_type_being_written[key.idx] {
+			b @ false => {
+				*b = true;
+				Ok(())
+			}
+			true => Err(SchemaError::new(
+				"The schema contains a cycle that goes through unnamed types only \
+					(arrays, maps, unions): it has no canonical form",
+			)),
+		}
+	}
+}
+
 /// Convert errors from `std::fmt::Write` to `SchemaError`
 /// in order to be able to use `?` in `WriteCanonicalFormState`
 struct ErrorConversionWriter<W>(W);
@@ -198,6 +224,7 @@ pub mod verif {
 		let mut state = WriteCanonicalFormState {
 			w: ErrorConversionWriter(String::new()),
 			named_type_written: vec![false; schema.nodes.len()],
+			unnamed_type_being_written: vec![false; schema.nodes.len()],
 		};
 		state.write_canonical_form(schema, SchemaKey::from_idx(0))?;
 		Ok(state.w.0)
